@@ -14,7 +14,8 @@ pub fn build(family: &str, rng: &mut Rng, index: u64) -> Option<Plan> {
 		"F4" => Some(f4(rng, index)),
 		// issuance swarm: standard hooks (C01/C04/C05/C13) and generated hook tables (C10)
 		"F1" => Some(super::f1::build(rng, &super::f1::F1Opts { max_certs: 3, max_ids: 8, generated_hooks: false, hard_hook_failures: false, owners: true, eab: true, allow_rsa4096: index % 97 == 0 })),
-		"F1h" => Some(super::f1::build(rng, &super::f1::F1Opts { max_certs: 2, max_ids: 4, generated_hooks: true, hard_hook_failures: index % 3 == 0, owners: false, eab: false, allow_rsa4096: false })),
+		"F1w" => Some(f1w(rng, index)),
+		"F1h" => Some(super::f1::build(rng, &super::f1::F1Opts { max_certs: 1 + (index % 2), max_ids: 4, generated_hooks: true, hard_hook_failures: index % 3 == 0, owners: false, eab: false, allow_rsa4096: false })),
 		"F3" => Some(f3(rng, index)),
 		"F3m" => Some(f3m(rng, index)),
 		_ => None,
@@ -430,5 +431,31 @@ fn f4(rng: &mut Rng, _index: u64) -> Plan {
 		ops.push(Op::Run { attempts: rng.range(1, 3) as u32, max_virtual_s: horizon, only: vec![] });
 	}
 	p.ops = ops;
+	p
+}
+
+/// F1w: identifier sets in which a name and its wildcard (and several names) use different
+/// challenge types, in both declaration orders; all 3x3 (base, wildcard) type pairs are cycled
+/// through by the index (wildcards with http-01/tls-alpn-01 need a CA that offers them).
+fn f1w(rng: &mut Rng, index: u64) -> Plan {
+	let opts = super::f1::F1Opts { max_certs: 2, max_ids: 3, generated_hooks: false, hard_hook_failures: false, owners: false, eab: false, allow_rsa4096: false };
+	let mut p = super::f1::build(rng, &opts);
+	let chs = ["http-01", "dns-01", "tls-alpn-01"];
+	let base_ch = chs[(index % 3) as usize];
+	let wild_ch = chs[((index / 3) % 3) as usize];
+	let wild_first = (index / 9) % 2 == 0;
+	let name = format!("pair{}.{}", index % 1000, dns_name(rng, false));
+	let mut pair = vec![ident(&name, base_ch), ident(&format!("*.{}", name), wild_ch)];
+	if wild_first {
+		pair.reverse();
+	}
+	let c = &mut p.config.certificates[0];
+	let keep: Vec<IdentCfg> = c.identifiers.drain(..).take(1).collect();
+	c.identifiers = if rng.chance(1, 2) { pair.into_iter().chain(keep.into_iter()).collect() } else { keep.into_iter().chain(pair.into_iter()).collect() };
+	for ca in p.cas.iter_mut() {
+		ca.knobs.offer = vec!["http-01".into(), "dns-01".into(), "tls-alpn-01".into()];
+		ca.knobs.wildcard_any = wild_ch != "dns-01" || rng.chance(1, 2);
+		ca.knobs.authz_status = vec![];
+	}
 	p
 }
